@@ -88,6 +88,7 @@ End Derivation.
 
 (** * Keeper *)
 Definition Triple : Type := (bytes * bytes * bytes)%type.
+Definition has_nul (s : bytes) : bool := existsb (Ascii.eqb zero_byte) s.
 Definition triple_eqb (a b : Triple) : bool :=
   let '(c, s, x) := a in let '(c', s', x') := b in bytes_eqb c c' && bytes_eqb s s' && bytes_eqb x x'.
 
@@ -129,6 +130,9 @@ Section Keeper.
 
   (** getOrCreateICS27Account: a stored entry wins; otherwise derive, make sure the sdk account exists, store *)
   Definition get_or_create (g : GState) (t : Triple) : option (GState * bytes) :=
+    (* k.Accounts.Get with collections.Join3(client, sender, salt): a string key part containing the
+       0x00 delimiter cannot be encoded, the error is not ErrNotFound and is returned *)
+    if has_nul (fst (fst t)) || has_nul (snd (fst t)) then None else
     match acc_get (g_accounts g) t with
     | Some a => Some (g, a)
     | None =>
